@@ -315,10 +315,14 @@ math_binop!(sub, checked_sub, -);
 /// Implements the `%` operator.  Like `//` it is euclidean for integers and floats alike.
 pub fn rem(lhs: &Value, rhs: &Value) -> Result<Value, Error> {
     match coerce(lhs, rhs, true) {
-        Some(CoerceResult::I128(a, b)) => match a.checked_rem_euclid(b) {
-            Some(val) => Ok(int_as_value(val)),
-            None => Err(failed_op("%", lhs, rhs)),
-        },
+        Some(CoerceResult::I128(a, b)) => {
+            // unlike the quotient the remainder cannot overflow: `i128::MIN % -1` is 0
+            if b != 0 {
+                Ok(int_as_value(a.wrapping_rem_euclid(b)))
+            } else {
+                Err(failed_op("%", lhs, rhs))
+            }
+        }
         Some(CoerceResult::F64(a, b)) => Ok(a.rem_euclid(b).into()),
         _ => Err(impossible_op("%", lhs, rhs)),
     }
